@@ -91,7 +91,26 @@ def run(ctx):
         holders = {k_ for k_, v_ in fval_.items() if v_ is call_ or ast.dump(v_) == ast.dump(call_)}
         caller_ok = bool(ret_rows) and all(P_.implied(fs_, lambda a_: a_[0] == "none" and a_[1] in holders and a_[2] is False) for fs_, _n in ret_rows)
         nonempty_ok = helper_ok and caller_ok
-    if not fm:
+    # every member handed out is one found among the members of `cls`: a store shared by all enumerations (a module-level memo keyed by
+    # the token) hands the member of whichever enumeration resolved the token first to all the others ("ctr", "l", "none" ... occur
+    # in several)
+    foreign = None
+    for n_ in ast.walk(fx.node):
+        src_ = None
+        if isinstance(n_, ast.Call) and isinstance(n_.func, ast.Attribute) and n_.func.attr in ("get", "setdefault", "pop") and isinstance(n_.func.value, ast.Name):
+            src_ = n_.func.value.id
+        elif isinstance(n_, ast.Subscript) and isinstance(n_.ctx, ast.Load) and isinstance(n_.value, ast.Name):
+            src_ = n_.value.id
+        if src_ is not None and src_ in fx.module.assigns and not any(
+                isinstance(x, ast.Name) and x.id == src_ and isinstance(x.ctx, ast.Store) for x in ast.walk(fx.node)):
+            keyed = ast.unparse(n_.args[0] if isinstance(n_, ast.Call) and n_.args else n_.slice if isinstance(n_, ast.Subscript) else n_)
+            if "cls" not in keyed:
+                foreign = (src_, ast.unparse(n_)[:60], n_.lineno)
+    if foreign:
+        ctx.violation("R20.1m", "BaseXmlEnum.from_xml", "a member is taken from the module-level store `%s` (`%s`), keyed without the enumeration: "
+                      "a token that occurs in several enumerations is answered with the member of the one that resolved it first" % foreign[:2],
+                      file=fx.file, line=foreign[2])
+    elif not fm:
         ctx.error("BaseXmlEnum.from_xml", "the member search (first member of cls with ...) is not recognised")
     elif any(set(m_["conds"]) <= eq and m_["conds"] for m_ in fm) and raises_fx and all(_exc_name(r) == "ValueError" for r in raises_fx) \
             and nonempty_ok:
